@@ -25,6 +25,7 @@ EXPLANATION = (
     "under `bond_type is not None` before merge_two_mols and reduces the explicit H count by the bond order."
     " (M5) no loop iterates the live compound list while its body reaches a list mutator; (M6) in MergeRule.apply the compound that is updated, that inherits the other compound's rules and that is returned is <b>.compound of the boundary b removed by update(), as b is bound at that point (a look-up taken before the boundary swap is stale); (M7) <compound>.mol is assigned only by methods of Compound and of the rule/action classes, never by the orchestration in merge.py."
     ' (M9) the classification loop of merge() hands every compound to a collector on every path; (M10) explicit hydrogen counts are changed only by the hydrogen-fixing helper of MergeRule.apply.'
+    ' (M11) lists joined by position derive from the same selection (shared with C06-B3); (M12) no state shared between calls on the merge path, memo tables keyed by a projection of a parameter included (shared with C06-B4).'
 )
 ASSUMPTIONS = ["RDKit CombineMols/AddBond conserve atoms (library)"]
 
